@@ -379,7 +379,7 @@ def parts(ctx):
     A(dict(name="bv12-d2", profile=lambda e: P.bv_profile(e, (1, 2), nsyms=1), depth=2, shards=32, mid_ops=_le2,
            top_ops=(lambda o: o.name in bvtop) if q else _le2, max_new=1))
     A(dict(name="bv3-d1", profile=lambda e: P.bv_profile(e, (3,)), depth=1, shards=4))
-    A(dict(name="str-d1", profile=lambda e: P.str_profile(e, strs=("", "a", 'a"b', "12", "a\\\\b", "\\"), ints=(-1, 0, 1)), depth=1,
+    A(dict(name="str-d1", profile=lambda e: P.str_profile(e, strs=("", "a", 'a"b', "12", "a\\\\b", "\\", "caf\u00e9", "a\nb"), ints=(-1, 0, 1)), depth=1,
            shards=4, dom={INT: (-1, 0, 2), STRING: ("", "a", "ab")}))
     A(dict(name="str-d2", profile=lambda e: P.str_profile(e, strs=("", "ab"), ints=(-1, 0, 1)), depth=2, shards=16,
            max_new=1, dom={INT: (-1, 0, 2), STRING: ("", "a", "ab")},
